@@ -3,7 +3,7 @@
 C08: one bounded model per emulation model (three region kinds, a
 bystander thread, thread state changes), full transition cover replayed on
 ovniemu; plus, for EVERY enter/leave pair of the event tables, the family
-  enter / leave / leave-other / leave-on-empty / wrong thread state /
+  enter / leave / leave-other / leave-on-empty / wrong thread state (paused, cooling, warming) /
   open at end under -l / immediate re-entry / nested inside another region
 and depth probes at the stack limit.  All verdicts and timelines are decided
 by EmuTrace.tla (the harness only enumerates inputs).
@@ -45,8 +45,8 @@ def pairs_of(model):
 def sys2(models):
     return {"threads": [{"tid": 101, "pid": 1001, "app": 1, "loom": 1, "rank": -1},
                         {"tid": 102, "pid": 1001, "app": 1, "loom": 1, "rank": -1}],
-            "cpus": [{"loom": 1, "idx": 0, "phy": 10, "virt": False},
-                     {"loom": 1, "idx": 1, "phy": 11, "virt": False},
+            "cpus": [{"loom": 1, "idx": 0, "phy": 11, "virt": False},
+                     {"loom": 1, "idx": 1, "phy": 10, "virt": False},
                      {"loom": 1, "idx": -1, "phy": -1, "virt": True}],
             "marks": [], "models": sorted(models)}
 
@@ -79,6 +79,7 @@ def pair_family(model, tier):
             [X, A, A, B, B, E],                 # immediate re-entry
             [X, ev(1, "OHp"), A, ev(1, "OHr"), E],   # paused thread
             [X, ev(1, "OHc"), A, B, E],         # cooling thread
+            [X, ev(1, "OHp"), ev(1, "OHw"), A, B, ev(1, "OHr"), E],   # warming thread
             [A, X, E],                          # thread not started
             [X, A, ev(1, "OHp"), ev(1, "OHr"), B, E],   # state change while open
         ]
@@ -155,8 +156,8 @@ def main_c08(tier):
             rng = random.Random(core.seed())
             # every pair keeps its enter/leave + mismatch + 3 sampled shapes
             keep = []
-            for i in range(0, len(fam), 10):
-                grp = fam[i:i + 10]
+            for i in range(0, len(fam), 11):
+                grp = fam[i:i + 11]
                 keep += grp[:3] + rng.sample(grp[3:], 3)
             fam = keep
         run_extra(ck, bdir, sys1({"O", mt["char"]}), fam, "C08/pairs/" + model)
